@@ -77,10 +77,17 @@ def _random_cases(args):
             W = [[1, -2, 4], [4, 1, -2], [-2, 4, 1]] if rs.rand() < 0.4 else [[5, 2, 8], [8, 5, 2], [2, 8, 5]] if rs.rand() < 0.5 else [[1, 0, 0], [0, 1, 0], [0, 0, 1], [1, 1, -1]]
             dim = 3
             n = min(n, 80)
-        if rs.rand() < 0.5:
+        u = rs.rand()
+        if u < 0.4:
             V = rs.randint(0, 6 if dim == 2 else 4, size=(n, dim)).astype(float)        # many duplicates and chains
+        elif u < 0.6:
+            # far from the origin relative to the gaps (un-normalised objectives): integers around +-1e6, still exact in floating point
+            V = (rs.randint(0, 40, size=(n, dim)) + rs.choice([-1.0, 1.0], size=dim) * 1e6).astype(float)
         else:
-            V = np.round(rs.randn(n, dim), 3)
+            # a dyadic grid (multiples of 1/64): differences and facet functionals with small integer rows are EXACT in floating point, so
+            # ties and boundary cases are decided identically by the code and by the exact reference (a decimal grid is not: 0.002 - 0.010 +
+            # 0.008 is 0 on paper and +-1e-18 in floats, which made one thorough run report a boundary pair as a difference)
+            V = np.round(rs.randn(n, dim) * 64) / 64
             if n > 3:
                 V[rs.randint(n)] = V[rs.randint(n)]                 # a duplicate
         if forced:
@@ -99,7 +106,7 @@ def _random_cases(args):
         if fast != sorted(set(fast)) or any(i < 0 or i >= n for i in fast):
             msgs.append("indices not valid/distinct/increasing")
         naive = [int(i) for i in o.get_pareto_set_naive(V.copy())]
-        # np.allclose in the naive routine treats values within 1e-8 as equal: inputs are rounded to 1e-3, so it is equality
+        # np.allclose in the naive routine treats values within 1e-8 as equal: inputs lie on a 1/64 grid, so it is equality
         if set(naive) != pdef or naive != sorted(naive):
             msgs.append("naive routine differs from the definition")
         if msgs:
